@@ -176,8 +176,17 @@ def composite(vc):
     p = sum(sizes[c] for c in cfg)
     theta = vc.vector("theta", p)
     C = comps[0]
+    operands = []
     for c_ in comps[1:]:
+        before = list(vc.attr(C, "components")) if C is not comps[0] else None
+        left = C
         C = vc.call(C, "__add__", c_)
+        if before is not None:
+            operands.append((left, before))
+    # frame: adding onto a sum builds a NEW sum -- the operands are what they were (a sum that is re-used elsewhere keeps its terms)
+    for left, before in operands:
+        now = list(vc.attr(left, "components"))
+        vc.ensures("operands_of_a_sum_are_unchanged", len(now) == len(before) and all(a is b for a, b in zip(now, before)))
     vc.call(C, "pass_spatial_data", x)
     vc.call(C, "estimate_hyperpar_bounds", vc.vector("y", n))
     vc.ensures("n_params", vc.attr(C, "n_params") == p)
@@ -450,6 +459,67 @@ def covariance_native(vc):
     vc.ensures("gradients_match_finite_differences", bool(ok) and worst < 1e-6)
 
 
+@bounded("C10", "sums_reused_native", native_runs=10)
+def sums_reused_native(vc):
+    """a sum that is re-used as an operand of further sums (signal = A + B; noisy = signal + C; other = signal + D) keeps its own
+    terms: each sum is the sum of exactly its own operands, in value, gradients, labels and parameter count"""
+    from inference.gp import SquaredExponential, RationalQuadratic, WhiteNoise
+    seed = vc.int("seed", lo=0, hi=10 ** 6)
+    rng = np.random.default_rng(seed)
+    n, d = int(rng.integers(2, 8)), int(rng.integers(1, 3))
+    x = rng.normal(size=(n, d))
+    A, Bk, Cn, D = SquaredExponential(), RationalQuadratic(), WhiteNoise(), SquaredExponential()
+    signal = A + Bk
+    noisy = signal + Cn
+    other = D + signal if seed % 2 else signal + D
+    sizes = {id(A): 1 + d, id(Bk): 2 + d, id(Cn): 1, id(D): 1 + d}
+    ok = True
+    for K, parts in ((signal, [A, Bk]), (noisy, [A, Bk, Cn]), (other, [D, A, Bk] if seed % 2 else [A, Bk, D])):
+        K.pass_spatial_data(x)
+        p = sum(sizes[id(c)] for c in parts)
+        theta = rng.uniform(-1, 1, size=p)
+        want, off = np.zeros((n, n)), 0
+        for c in parts:
+            ref = type(c)()
+            ref.pass_spatial_data(x)
+            want = want + ref.build_covariance(theta[off:off + sizes[id(c)]])
+            off += sizes[id(c)]
+        ok = ok and K.n_params == p and len(K.hyperpar_labels) == p
+        if K.n_params == p:
+            Kv, grads = K.covariance_and_gradients(theta)
+            ok = ok and len(grads) == p and bool(np.allclose(K.build_covariance(theta), want, rtol=1e-12, atol=1e-12)) \
+                and bool(np.allclose(Kv, want, rtol=1e-12, atol=1e-12))
+    vc.ensures("each_sum_is_the_sum_of_its_own_operands", bool(ok))
+
+
+@bounded("C10", "user_bounds_native", native_runs=10)
+def user_bounds_native(vc):
+    """bounds the user gives to a component kernel are that component's bounds: they appear, in order, at the component's
+    positions in the bounds of every sum / change-point combination it is part of (as fitted through GpRegressor)"""
+    from inference.gp import SquaredExponential, RationalQuadratic, WhiteNoise, ChangePoint, GpRegressor
+    seed = vc.int("seed", lo=0, hi=10 ** 6)
+    rng = np.random.default_rng(seed)
+    how = vc.choice("combination", ["sum", "change_point", "change_point_of_3", "sum_inside_change_point"])
+    n = int(rng.integers(6, 14))
+    x = np.sort(rng.uniform(0, 1, size=n))
+    y = np.sin(5 * x) + 0.1 * rng.normal(size=n)
+    ub = [(float(-1 - rng.uniform()), float(1 + rng.uniform())), (float(-3 - rng.uniform()), float(0.5 + rng.uniform()))]
+    mine = SquaredExponential(hyperpar_bounds=list(ub))
+    if how == "sum":
+        K, at = RationalQuadratic() + mine + WhiteNoise(), 3
+    elif how == "change_point":
+        K, at = ChangePoint(kernels=[SquaredExponential(), mine]), 2
+    elif how == "change_point_of_3":
+        K, at = ChangePoint(kernels=[mine, SquaredExponential(), RationalQuadratic()]), 0
+    else:
+        K, at = ChangePoint(kernels=[SquaredExponential(), mine + WhiteNoise()]), 2
+    with np.errstate(all="ignore"):
+        GpRegressor(x, y, kernel=K)
+    got = [tuple(float(v) for v in b) for b in K.bounds[at:at + 2]]
+    vc.inputs["bounds_at_component"] = got
+    vc.ensures("user_bounds_of_a_component_appear_in_the_combination", got == [tuple(b) for b in ub])
+
+
 @bounded("C10", "mean_native", native_runs=20)
 def mean_native(vc):
     from inference.gp import ConstantMean, LinearMean, QuadraticMean
@@ -483,7 +553,12 @@ def change_point_labels_and_bounds(vc):
     d = 1
     n = vc.int("n", lo=2)
     x = _points(vc, "x", n, d)
-    comps = [vc.new(COV, "SquaredExponential") for _ in range(nk)]
+    # the first component may come with bounds chosen by the user: they are that component's bounds, hence the composite's
+    user = vc.choice("bounds_of_first_component", ["estimated", "given_by_the_user"]) == "given_by_the_user"
+    per0 = 1 + d
+    ub = [(vc.real(f"user_lo{q}"), vc.real(f"user_hi{q}")) for q in range(per0)] if user else None
+    comps = [vc.new(COV, "SquaredExponential", hyperpar_bounds=list(ub)) if (user and i == 0) else vc.new(COV, "SquaredExponential")
+             for i in range(nk)]
     loc = [(vc.real(f"loc_lo{t}"), None) for t in range(nk - 1)]
     loc = [(a, S.add(a, vc.real(f"loc_w{t}", pos=True))) for t, (a, _) in enumerate(loc)]
     wid = [(vc.real(f"wid_lo{t}", pos=True), None) for t in range(nk - 1)]
@@ -508,6 +583,10 @@ def change_point_labels_and_bounds(vc):
     vc.call(CP, "estimate_hyperpar_bounds", y)
     B = vc.attr(CP, "bounds")
     L = vc.attr(CP, "hyperpar_labels")
+    if user:
+        vc.ensures("bounds_given_by_the_user_for_a_component_are_kept",
+                   len(B) >= per and S.And(*[S.And(S.cmp("==", B[q][0], ub[q][0]), S.cmp("==", B[q][1], ub[q][1])) for q in range(per)]))
+        marks[0] = list(ub)
     vc.ensures("one_label_and_one_bound_per_hyperparameter", len(B) == p and len(L) == p and vc.attr(CP, "n_params") == p)
     if len(B) != p or len(L) != p:
         return
